@@ -306,6 +306,12 @@ Proof.
   - left. split; [reflexivity|]. rewrite skipn_length. lia.
 Qed.
 
+Lemma count_ws_head l c t : skipn (count_ws l) l = c :: t -> is_whitespace c = false.
+Proof.
+  induction l as [|x l IH]; simpl; [discriminate|].
+  destruct (is_whitespace x) eqn:E; simpl; [exact IH|]. intros [= <- _]. exact E.
+Qed.
+
 Lemma to_eol_spec : forall l, let '(n, e) := to_eol l in
   n + e <= length l /\ (get_eol_at l 0 = None -> 1 <= n).
 Proof.
@@ -337,7 +343,7 @@ Lemma foe_spec : forall fuel through r, length (r_rest r) < fuel ->
   | Ok (f, r') =>
     r_fuel r' = r_fuel r /\ length (r_rest r') <= length (r_rest r) /\
     match f with
-    | Field => True
+    | Field => at_field_end_at (r_rest r') 0 = Ok false
     | Eol => through = true -> r_rest r <> [] -> length (r_rest r') < length (r_rest r)
     end
   | Err (ZErr _ _) => True
@@ -360,7 +366,7 @@ Proof.
       specialize (IH through (adv_line r1 e) L).
       destruct (foe_loop fuel through (adv_line r1 e)) as [[f r']|[p k|]|]; auto.
       rewrite adv_line_fuel, adv_line_len in IH. destruct IH as (I1 & I2 & I3).
-      split; [congruence|]. split; [lia|]. destruct f; [exact I|]. intros _ _. lia.
+      split; [congruence|]. split; [lia|]. destruct f; [exact I3|]. intros _ _. lia.
     + destruct (through && (0 <? e)) eqn:T.
       * rewrite adv_line_fuel, adv_line_len. split; [exact Wf|]. split; [lia|].
         intros _ Hn. apply andb_true_iff in T. destruct T as [_ T]. apply Nat.ltb_lt in T. lia.
@@ -375,33 +381,37 @@ Proof.
     pose proof (eol_skipping_le true r1) as (S1 & S2 & S3).
     pose proof (eol_skipping_le false r1) as (T1 & T2 & T3).
     rewrite Er in S3, T3. specialize (S3 E). specialize (T3 E). rewrite <- Er in S3, T3.
-    destruct (o =? 59)%N.
+    destruct (o =? 59)%N eqn:Eq59.
     + destruct (r_paren r1).
       * assert (L : length (r_rest (skip_through_eol r1)) < fuel) by (unfold skip_through_eol; lia).
         specialize (IH through (skip_through_eol r1) L).
         destruct (foe_loop fuel through (skip_through_eol r1)) as [[f r']|[p k|]|]; auto.
         unfold skip_through_eol in IH. destruct IH as (I1 & I2 & I3).
-        split; [congruence|]. split; [lia|]. destruct f; [exact I|]. intros _ _. lia.
+        split; [congruence|]. split; [lia|]. destruct f; [exact I3|]. intros _ _. lia.
       * destruct through.
         -- unfold skip_through_eol. split; [congruence|]. split; [lia|]. intros _ _. lia.
         -- unfold skip_to_eol. split; [congruence|]. split; [lia|]. intros; discriminate.
-    + destruct (o =? 40)%N.
+    + destruct (o =? 40)%N eqn:Eq40.
       * destruct (r_paren r1); [exact I|].
         assert (L : length (r_rest (adv (set_paren r1 true) 1)) < fuel)
           by (rewrite adv_len, set_paren_rest; lia).
         specialize (IH through _ L).
         destruct (foe_loop fuel through (adv (set_paren r1 true) 1)) as [[f r']|[p k|]|]; auto.
         rewrite adv_fuel, adv_len, set_paren_rest in IH. destruct IH as (I1 & I2 & I3).
-        split; [simpl in I1; congruence|]. split; [lia|]. destruct f; [exact I|]. intros _ _. lia.
-      * destruct (o =? 41)%N.
+        split; [simpl in I1; congruence|]. split; [lia|]. destruct f; [exact I3|]. intros _ _. lia.
+      * destruct (o =? 41)%N eqn:Eq41.
         -- destruct (negb (r_paren r1)); [exact I|].
            assert (L : length (r_rest (adv (set_paren r1 false) 1)) < fuel)
              by (rewrite adv_len, set_paren_rest; lia).
            specialize (IH through _ L).
            destruct (foe_loop fuel through (adv (set_paren r1 false) 1)) as [[f r']|[p k|]|]; auto.
            rewrite adv_fuel, adv_len, set_paren_rest in IH. destruct IH as (I1 & I2 & I3).
-           split; [simpl in I1; congruence|]. split; [lia|]. destruct f; [exact I|]. intros _ _. lia.
-        -- split; [exact Wf|]. split; [lia|exact I].
+           split; [simpl in I1; congruence|]. split; [lia|]. destruct f; [exact I3|]. intros _ _. lia.
+        -- split; [exact Wf|]. split; [lia|].
+           unfold at_field_end_at. rewrite Er, E. cbn [nth_error]. unfold ends_field.
+           assert (Hws : is_whitespace o = false).
+           { apply (count_ws_head (r_rest r) o t). exact Er. }
+           rewrite Hws, Eq59, Eq40, Eq41. reflexivity.
 Qed.
 
 Lemma safe_foe through : safe false (fun r => foe_loop (foe_fuel r) through r) (fun _ => True).
@@ -410,6 +420,19 @@ Proof.
   assert (L : length (r_rest r) < r_fuel r) by (unfold wfr in Hr; lia).
   pose proof (foe_spec (r_fuel r) through r L) as H.
   destruct (foe_loop (r_fuel r) through r) as [[f r']|[p k|]|]; simpl; auto. tauto.
+Qed.
+
+(* after Field the reader stands on field data *)
+Lemma foe_field through r : wfr r ->
+  match foe_loop (foe_fuel r) through r with
+  | Ok (Field, r') => at_field_end_at (r_rest r') 0 = Ok false
+  | _ => True
+  end.
+Proof.
+  intros Hr. unfold foe_fuel.
+  assert (L : length (r_rest r) < r_fuel r) by (unfold wfr in Hr; lia).
+  pose proof (foe_spec (r_fuel r) through r L) as H.
+  destruct (foe_loop (r_fuel r) through r) as [[f r']|[p k|]|]; auto. destruct f; [tauto|exact I].
 Qed.
 
 Lemma safe_through : safe false skip_to_next_field_or_through_eol (fun _ => True).
